@@ -997,8 +997,92 @@ func boolInt(b bool) int {
 	return 0
 }
 
+// memoryCarried: inside a partition loop, an element of a shared array written at index i+c1 and
+// read at index i+c2 (c1 != c2) carries data from one work item to the next through memory.
+func (a *a3) memoryCarried(ind *ssa.Phi, reg map[*ssa.BasicBlock]bool) string {
+	type acc struct {
+		off int64
+		pos token.Pos
+	}
+	norm := func(idx ssa.Value) (int64, bool) {
+		off := int64(0)
+		v := idx
+		for i := 0; i < 8; i++ {
+			switch x := v.(type) {
+			case *ssa.Convert:
+				v = x.X
+				continue
+			case *ssa.ChangeType:
+				v = x.X
+				continue
+			case *ssa.BinOp:
+				if c, ok := intConst(x.Y); ok && (x.Op == token.ADD || x.Op == token.SUB) {
+					if x.Op == token.ADD {
+						off += c
+					} else {
+						off -= c
+					}
+					v = x.X
+					continue
+				}
+			}
+			break
+		}
+		return off, v == ssa.Value(ind)
+	}
+	rootOf := func(x ssa.Value) (addrKeyT, bool) {
+		if k, ok := addrKey(x); ok {
+			return k, true
+		}
+		return addrKeyT{}, false
+	}
+	stores := map[addrKeyT][]acc{}
+	loads := map[addrKeyT][]acc{}
+	for b := range reg {
+		for _, in := range b.Instrs {
+			ia, ok := in.(*ssa.IndexAddr)
+			if !ok || a.perW[ia.X] {
+				continue
+			}
+			off, isInd := norm(ia.Index)
+			if !isInd {
+				continue
+			}
+			k, ok := rootOf(ia.X)
+			if !ok {
+				continue
+			}
+			for _, u := range *ia.Referrers() {
+				switch y := u.(type) {
+				case *ssa.Store:
+					if y.Addr == ssa.Value(ia) {
+						stores[k] = append(stores[k], acc{off, y.Pos()})
+					}
+				case *ssa.UnOp:
+					if y.Op == token.MUL {
+						loads[k] = append(loads[k], acc{off, ia.Pos()})
+					}
+				}
+			}
+		}
+	}
+	for k, ss := range stores {
+		for _, s := range ss {
+			for _, l := range loads[k] {
+				if l.off != s.off {
+					return fmt.Sprintf("element %s[i%+d] is read at %s while %s[i%+d] is written at %s in the same loop over work items: data is carried from item to item through memory, so results depend on where a partition starts", describeKey(k), l.off, a.p.Pos(l.pos), describeKey(k), s.off, a.p.Pos(s.pos))
+				}
+			}
+		}
+	}
+	return ""
+}
+
 // partitionLeak checks the other phis of a partition-loop header.
 func (a *a3) partitionLeak(h *ssa.BasicBlock, ind *ssa.Phi, reg map[*ssa.BasicBlock]bool) string {
+	if s := a.memoryCarried(ind, reg); s != "" {
+		return s
+	}
 	for _, in := range h.Instrs {
 		phi, ok := in.(*ssa.Phi)
 		if !ok {
